@@ -13,7 +13,7 @@ from .. import build as B
 PROPERTY = "C16"
 LEVEL = "exploration"
 VARIANTS = ["fast"]
-RULE = ("9 mapping configurations x 9 path prefixes x 24 remainders (+ absolute physical forms) x 5 requesters (script operators, #include at "
+RULE = ("9 mapping configurations x 9 path prefixes x 24 remainders (thorough: + all remainders of <=3 segments over 7 segment kinds) (+ absolute physical forms) x 5 requesters (script operators, #include at "
         "depth 1 and 2); a case = (configuration, requester, path); non-trivial = path contains a `..`, `.`, backslash, duplicate separator or "
         "the configuration has nested / multi-root prefixes; distinct by case")
 ASSUMPTIONS = [
@@ -72,7 +72,17 @@ def gen(tier):
     def g():
         for cfg in CONFIGS:
             for req in REQUESTERS:
-                paths = [p + r for p in PREFIXES for r in REMAINDERS]
+                rems = list(REMAINDERS)
+                if tier != "quick":
+                    # every remainder of 1..3 segments over a 7-segment alphabet (names that exist as file / directory in some root,
+                    # `..`, `.`, the empty segment)
+                    segs = ["f.sqf", "sub", "y", "deep", "..", ".", ""]
+                    for n in (1, 2, 3):
+                        for t in itertools.product(segs, repeat=n):
+                            r_ = "/".join(t)
+                            if r_ not in rems:
+                                rems.append(r_)
+                paths = [p + r for p in PREFIXES for r in rems]
                 paths += [os.path.join(ROOT, "r1", "f.sqf"), os.path.join(ROOT, "r1", "sub", "..", "f.sqf"), os.path.join(ROOT, "bait", "secret.sqf"),
                           os.path.join(ROOT, "r1", "..", "bait", "secret.sqf"), os.path.join(ROOT, "r3", "z.sqf"), os.path.join(ROOT, "r2", "only2.sqf"),
                           "/etc/hostname", os.path.join(ROOT, "r1"), ROOT + "/r1//f.sqf"]
